@@ -13,6 +13,8 @@ import (
 //   - if(not(C), A, B) is if(C, B, A);
 //   - not((A eq B)) is (A ne B), not((A ne B)) is (A eq B), not(not(X)) is X;
 //   - (A eq B) is (B eq A) (operands in lexicographic order), likewise ne;
+//   - the fields of a record literal T{A: x, B: y} are listed in alphabetical order;
+//   - slice.Collect(f, xs) is slice.Concat(slice.Map(f, xs));
 //   - slice.Length is slice.Len; slice.IsNotEmpty(X) is not(slice.IsEmpty(X)); (slice.Len(X) eq 0) is
 //     slice.IsEmpty(X), (slice.Len(X) ne 0) and (slice.Len(X) > 0) are its negation (closed forms decided by C13).
 // It works on the text: brackets are balanced in every printed form and literals are quoted Go-style.
@@ -41,6 +43,16 @@ func canonShapeOnce(s string) string {
 			i = j
 			continue
 		}
+		// a record literal T{A: x, B: y}: the fields in alphabetical order (a keyed composite literal; the field
+		// values of a normal form are terms over the threaded state, their order of evaluation is immaterial)
+		if c == '{' && i > 0 && isWordChar(s[i-1]) {
+			if cl := matchingClose(s, i); cl > 0 {
+				inner := canonShapeOnce(s[i+1 : cl])
+				b.WriteString("{" + sortFields(inner) + "}")
+				i = cl + 1
+				continue
+			}
+		}
 		// a grouping parenthesis (infix expression): emptiness tests and the symmetric comparisons
 		if c == '(' && isWordStart(s, i) {
 			if cl := matchingClose(s, i); cl > 0 {
@@ -51,7 +63,7 @@ func canonShapeOnce(s string) string {
 			}
 		}
 		if isWordStart(s, i) {
-			for _, kw := range []string{"match(", "if(", "not(", "slice.IsNotEmpty("} {
+			for _, kw := range []string{"match(", "if(", "not(", "slice.IsNotEmpty(", "slice.Collect("} {
 				if strings.HasPrefix(s[i:], kw) {
 					open := i + len(kw) - 1
 					cl := matchingClose(s, open)
@@ -70,6 +82,39 @@ func canonShapeOnce(s string) string {
 	next:
 	}
 	return b.String()
+}
+
+func isWordChar(p byte) bool {
+	return p == '_' || p >= '0' && p <= '9' || p >= 'a' && p <= 'z' || p >= 'A' && p <= 'Z'
+}
+
+// sortFields: "A: x, B: y" with the fields ordered by name; anything that is not a list of `Name: value` is kept.
+func sortFields(inner string) string {
+	parts := splitTop(inner, ',')
+	if len(parts) < 2 {
+		return inner
+	}
+	type fld struct{ name, text string }
+	var fs []fld
+	for _, p := range parts {
+		t := strings.TrimSpace(p)
+		k := strings.Index(t, ": ")
+		if k <= 0 {
+			return inner
+		}
+		for j := 0; j < k; j++ {
+			if !isWordChar(t[j]) {
+				return inner
+			}
+		}
+		fs = append(fs, fld{t[:k], t})
+	}
+	sort.SliceStable(fs, func(x, y int) bool { return fs[x].name < fs[y].name })
+	out := make([]string, len(fs))
+	for i, f := range fs {
+		out[i] = f.text
+	}
+	return strings.Join(out, ", ")
 }
 
 func isWordStart(s string, i int) bool {
@@ -183,6 +228,11 @@ func rebuild(kw, inner string) string {
 	switch kw {
 	case "slice.IsNotEmpty(":
 		return "not(slice.IsEmpty(" + inner + "))"
+	case "slice.Collect(":
+		if ps := splitTop(inner, ','); len(ps) == 2 {
+			return "slice.Concat(slice.Map(" + ps[0] + "," + ps[1] + "))"
+		}
+		return kw + inner + ")"
 	case "match(":
 		parts := splitTop(inner, ';')
 		if len(parts) < 3 {
